@@ -79,6 +79,8 @@ class Ctx:
         self.coros = []
         self.snapping = bool(sc.get("snap", True))
         self.excs = {}     # id(exception object) -> (object, origin)
+        self.pre = False   # the shutdown issued before the run is going on
+        self.left = set()  # nodes whose body has been cancelled or has ended
 
     # -- scenario accessors (1-based nodes)
     def g(self, key, node):
@@ -90,7 +92,7 @@ class Ctx:
 
     def log(self, kind, node, val="-", num=0, snap=None):
         """v is always a string and i always an integer (TLC compares them)"""
-        if self.closed:
+        if self.closed or self.pre:
             return
         evt = {"q": len(self.ev) + 1, "t": self.loop.vtime,
                "k": kind, "n": node, "v": val, "i": num}
@@ -114,6 +116,7 @@ class Ctx:
             for _ in range(self.hk("k", node, 0)):
                 await asyncio.sleep(0)
         except asyncio.CancelledError:
+            self.left.add(node)
             self.log("cancel", node)
             cdur = self.g("cdur", node)
             if cdur > 0:
@@ -123,8 +126,10 @@ class Ctx:
                         await asyncio.sleep(deadline - self.loop.vtime)
                     except asyncio.CancelledError:
                         self.log("recancel", node)
+            await self.wait_for_sibling(node)
             self.log("cancel-done", node)
             raise
+        self.left.add(node)
         if self.g("out", node) == "exc":
             self.log("raise", node)
             self.stall(node)
@@ -141,6 +146,26 @@ class Ctx:
             self.ret[node] = fut
         return self.ret[node]
 
+    async def wait_for_sibling(self, node):
+        """cfg.cwait: the clean-up of this cancelled body needs something a sibling holds
+        until that sibling is cancelled too (or has ended): a scheduler cancels all the
+        tasks it gives up before it awaits any of them, and such jobs rely on it"""
+        other = self.cfg.get("cwait", [0] * self.n)[node - 1]
+        if not other:
+            return
+        spins = 0
+        while True:
+            task = getattr(self.obj[other], "_task", None)
+            if other in self.left or (task is not None and task.done()):
+                return
+            spins += 1
+            try:
+                if spins > 30:
+                    await self.never()      # the sibling is not being cancelled: stuck for good
+                await asyncio.sleep(0)
+            except asyncio.CancelledError:
+                self.log("recancel", node)
+
     def stall(self, node):
         """the body keeps the event loop busy for a while after it has decided
         its outcome (a blocking call): the clock moves on while every other
@@ -151,6 +176,8 @@ class Ctx:
             self.loop.vtime += amount
 
     async def handler(self, node):
+        if self.pre:
+            return      # the shutdown issued before the run: instantaneous, not part of the trace
         self.log("shut", node)
         sdur = self.g("sdur", node)
         try:
@@ -530,6 +557,14 @@ def _run_scenario(sc):
     try:
         with contextlib.redirect_stdout(sink):
             top = build(ctx)
+            if ctx.cfg.get("preshut"):
+                # shutdown() before the run: every job hears of it now, and never again
+                ctx.pre = True
+                try:
+                    top.shutdown()
+                finally:
+                    ctx.pre = False
+                assert loop.vtime == 0
             loop.on_tick = ctx.tick
             ucancel = ctx.cfg.get("ucancel", -1)
             try:
